@@ -127,7 +127,14 @@ def parse_wheel_filename(
             raise InvalidWheelFilename(
                 f"Invalid build number: {build_part} in {filename!r}"
             )
-        build = cast(BuildTag, (int(build_match.group(1)), build_match.group(2)))
+        try:
+            build_number = int(build_match.group(1))
+        except ValueError as e:
+            # Beyond the interpreter's limit for integer string conversion.
+            raise InvalidWheelFilename(
+                f"Invalid build number: {build_part} in {filename!r}"
+            ) from e
+        build = cast(BuildTag, (build_number, build_match.group(2)))
     else:
         build = ()
     tags = parse_tag(parts[-1])
